@@ -45,5 +45,6 @@ SPECS.update({
     'hints': ['lemma_bits_u32(s0[2], s0[0]); lemma_bits_u32(s0[3], s0[1]);']},
  'u64::or': {'src': src('or'), 'pre': U4, 'never_fails': True,
     'post': ['r[0].val() == bor(s0[2], s0[0]) && r[1].val() == bor(s0[3], s0[1])', 'rest_ok(s0, r, 4, 2)'],
-    'hints': ['lemma_or_via_and(s0[2], s0[0]); lemma_or_via_and(s0[3], s0[1]); lemma_bits_u32(s0[2], s0[0]); lemma_bits_u32(s0[3], s0[1]);']},
+    'hints': ['lemma_or_via_and(s0[2], s0[0]); lemma_or_via_and(s0[3], s0[1]); lemma_bits_u32(s0[2], s0[0]); lemma_bits_u32(s0[3], s0[1]);'],
+    'normal_forms': True, 'chain_in_body': True},
 })
